@@ -307,11 +307,25 @@ pub fn run_layout(opts: &Opts, rep: &mut Report) {
 
 // ---------------------------------------------------------------------------------- exhausted index space
 
+/// 0 idle, 1 armed (the next thread reaching VecAfterReserve parks), 2 parked, 3 released
+static PARK: AtomicU64 = AtomicU64::new(0);
+
+fn exhaust_hook(p: nucleo::verif::Point) {
+    if p == nucleo::verif::Point::VecAfterReserve && PARK.compare_exchange(1, 2, Ordering::SeqCst, Ordering::SeqCst).is_ok() {
+        let deadline = std::time::Instant::now() + std::time::Duration::from_secs(2);
+        while PARK.load(Ordering::SeqCst) != 3 && std::time::Instant::now() < deadline {
+            std::thread::yield_now();
+        }
+        PARK.store(0, Ordering::SeqCst);
+    }
+}
+
 pub fn run_exhaust(opts: &Opts, rep: &mut Report) {
     let range: Box<dyn Iterator<Item = u64>> = match opts.replay {
         Some(i) => Box::new(i..i + 1),
         None => Box::new(0..opts.cases),
     };
+    nucleo::verif::set_hook(Some(exhaust_hook));
     for idx in range {
         if rep.elapsed() > opts.time_limit {
             rep.note(format!("time limit reached after {idx} histories"));
@@ -358,10 +372,43 @@ pub fn run_exhaust(opts: &Opts, rep: &mut Report) {
                         inner: vec![format!("huge-{r}-a"), format!("huge-{r}-b")].into_iter(),
                         reported,
                     };
-                    catch_unwind(AssertUnwindSafe(|| {
-                        vec.extend(it, |_, c| c[0] = "huge".into());
-                        None
-                    }))
+                    // the refused batch runs on its own thread and is parked right after its reservation; this thread reads
+                    // the item count in that window and again afterwards: the count never decreases
+                    let concurrent = rng.coin();
+                    if concurrent {
+                        PARK.store(1, Ordering::SeqCst);
+                    }
+                    let vref = &vec;
+                    let (res, during) = std::thread::scope(|s| {
+                        let h = s.spawn(move || {
+                            catch_unwind(AssertUnwindSafe(|| {
+                                vref.extend(it, |_, c| c[0] = "huge".into());
+                                None
+                            }))
+                        });
+                        let mut during = None;
+                        if concurrent {
+                            let deadline = std::time::Instant::now() + std::time::Duration::from_secs(2);
+                            while PARK.load(Ordering::SeqCst) != 2 && std::time::Instant::now() < deadline && !h.is_finished() {
+                                std::thread::yield_now();
+                            }
+                            if PARK.load(Ordering::SeqCst) == 2 {
+                                during = Some(vref.count());
+                                PARK.store(3, Ordering::SeqCst);
+                            } else {
+                                PARK.store(0, Ordering::SeqCst);
+                            }
+                        }
+                        (h.join().unwrap_or(Ok(None)), during)
+                    });
+                    if let Some(c1) = during {
+                        let c2 = vec.count();
+                        rep.count("exhaust.count-read-inside-a-refused-reservation");
+                        if c2 < c1 {
+                            problems.push(("count-decreased", format!("the item count was {c1} while the batch held its reservation and {c2} after the batch was refused")));
+                        }
+                    }
+                    res
                 }
                 // a reported length that does not even fit the index type: refused before anything is reserved
                 2 => {
@@ -465,4 +512,5 @@ pub fn run_exhaust(opts: &Opts, rep: &mut Report) {
         }
         drop(vec);
     }
+    nucleo::verif::set_hook(None);
 }
